@@ -238,6 +238,12 @@ func (c *Conn) Close() error {
 	return c.CloseErr
 }
 
+// Pending is the number of queued items no reader has taken yet.
+func (c *Conn) Pending() int { return len(c.inbox) }
+
+// ReaderWaiting reports whether a reader is blocked in ReadFrom.
+func (c *Conn) ReaderWaiting() bool { return len(c.waiters) > 0 }
+
 func (c *Conn) Closed() bool                       { return c.closed }
 func (c *Conn) LocalAddr() net.Addr                { return c.Local }
 func (c *Conn) SetDeadline(t time.Time) error      { return nil }
